@@ -9,7 +9,9 @@ HARNESS = os.path.join(ROOT, "harness")
 REPO = os.environ.get("VERIF_REPO", "/repo")
 INCLUDE = os.environ.get("VERIF_REPO_INCLUDE", os.path.join(REPO, "include"))
 TLA_JAR = "/opt/veriftools/tla/tla2tools.jar:/opt/veriftools/tla/CommunityModules-deps.jar"
-NCPU = os.cpu_count() or 4
+# VERIF_NCPU caps every kind of parallelism of the checks (TLC workers, parallel builds, parallel TLC jobs);
+# meant for development on a shared machine, the registered commands do not set it
+NCPU = int(os.environ.get("VERIF_NCPU", "0") or 0) or os.cpu_count() or 4
 
 
 class MachineryError(Exception):
